@@ -25,12 +25,22 @@ EITHER zones:
   V5  a wrong-length sample_mask when every site is masked (the mask is never looked at).
   V6  sample_mask index j refers to the j-th node in output order (the order of Variant.samples handed to a
       callable mask); the docs say "sample j" without fixing an order when individuals reorder the nodes.
+  V7  an `individuals` argument that lists an individual twice (docs: "subsets or permutations"): error, or
+      the individual written twice with correct genotypes.
+
+Audit round (lib/props/AUDIT-C16.md, helpers in lib/props/c16_ext.py): the same exports are driven through every
+entry (as_vcf, write_vcf into StringIO / file / TextIOWrapper / write-only object / sys.stdout / output=...,
+tskit.vcf.VcfWriter written twice, `tskit vcf` with every option spelling), every argument container form, explicit
+defaults, masks whose true entries are not 1, non-monotone / negative / 2^40-sized / tuple / int32 / 2-D position
+transforms, the legacy function itself, coordinates scaled by 2^24..2^40 and 2^-3, schema-coded metadata, and by
+CASE INDEX (never by chance): `big` (66..1026 samples, >= 256 individuals / ploidy), `huge` (16 386..65 538
+samples) and `manysites` (130..700 sites) inputs.
 """
 import contextlib
 import io
 import os
 import re
-import tempfile
+import warnings
 
 import numpy as np
 import tskit
@@ -39,15 +49,31 @@ from lib import gen
 from lib.harness import case_rng
 from lib.model import NULL, forest, mutation_parents
 from lib.props.c03 import GenoRef, attempt, build_msprime, exc_name, model_features
-from lib.tsk import to_ts
+from lib.props import c16_ext as X
 
 ID = "C16"
+
+warnings.simplefilter("ignore")  # numpy's "invalid value in cast" for nan masks etc.; the worker is ours
+
+
+def case_gen(k):
+    """Input family by case index, so that the rare families run in every budget (a loaded machine finishes
+    ~6000 cases: 12 huge (2000 cases: 4) - the sample count rotates 32 770, 65 538, 32 770, 16 386 -, 120 big, 40 manysites)."""
+    if k % 500 == 11:
+        return "huge"
+    if k % 40 == 7:
+        return "msprime"
+    if k % 50 == 13:
+        return "big"
+    if k % 150 == 31:
+        return "manysites"
+    return "walk"
 
 
 def cases(tier, seed):
     n = 60000 if tier == "quick" else 6000000
     for k in range(n):
-        yield {"gen": ("msprime" if k % 40 == 7 else "walk"), "k": k}
+        yield {"gen": case_gen(k), "k": k}
 
 
 # ------------------------------------------------------------------------------------ generator
@@ -85,6 +111,12 @@ def assign_individuals(rng, m, layout):
             for u in rng.sample(nonsamples, rng.randint(1, min(2, len(nonsamples)))):
                 ind[u] = free
     m.nodes = [(f, t, p, ind[u], md) for u, (f, t, p, _, md) in enumerate(m.nodes)]
+    if rng.random() < 0.3:
+        # individual rows with content (flags, ragged location / parents): none of it may reach the VCF
+        m.individuals = [(rng.choice([0, 1, 1 << 31]), tuple(rng.randint(-4, 4) / 2 for _ in range(rng.choice([0, 1, 3]))),
+                          tuple(rng.choice([NULL] + list(range(i))) for _ in range(rng.choice([0, 1, 2]))), b"")
+                         for i in range(nind)]
+        m.tags.add("individual-rows-with-content")
 
 
 def site_rows(rng, m, j, pos, pool, k, known_times):
@@ -132,19 +164,34 @@ def nastify(rng, m, masked, kinds):
         elif kind == "multi-letter":
             sites[j] = (sites[j][0], rng.choice(["ACGT", "", "é"]), md)
             by_site[j] = site_rows(rng, m, j, pos, ["TT", "", "Aé", "GGG"], rng.randint(1, 4), False)
+        elif kind == "unprintable":
+            # alleles that would break the VCF text (docs: "it is possible to use the tab character as an allele,
+            # leading to a broken VCF") - harmless while the site is masked
+            sites[j] = (sites[j][0], rng.choice(["A\tB", "\n", "A,C"]), md)
+            by_site[j] = site_rows(rng, m, j, pos, ["\t", "1\n1", ",", "\r"], rng.randint(1, 4), False)
         used.append(kind)
     m2.sites = sites
     m2.mutations = [r for j in range(len(sites)) for r in by_site[j]]
     par = mutation_parents(m2)
-    m2.mutations = [(s, u, d, par[k], t, md) for k, (s, u, d, _, t, md) in enumerate(m2.mutations)]
+    fill = X.default_md(m2, "mutations")  # the new rows must carry metadata that is valid under the table's schema
+    m2.mutations = [(s, u, d, par[k], t, md or fill) for k, (s, u, d, _, t, md) in enumerate(m2.mutations)]
     return m2, used
 
 
 def build(case):
     rng = case_rng(case)
-    if case["gen"] == "msprime":
+    kind = case["gen"]
+    if kind == "msprime":
         # diploid/haploid individuals as simulators write them, finite-sites mutations
         return rng, build_msprime(rng), "all"
+    if kind in ("big", "huge"):
+        m, layout = X.big_model(rng, huge=kind == "huge", turn=case["k"] // 500)
+        return rng, m, layout
+    if kind == "manysites":
+        m = X.many_sites_model(rng)
+        layout = rng.choice(["none", "none", "all", "partial"])
+        assign_individuals(rng, m, layout)
+        return rng, m, layout
     discrete = rng.random() < 0.5
     sm = rng.choice(["young", "young", "young", "all", "any", "any", "few", "none"])
     if sm == "none" and rng.random() < 0.6:
@@ -179,6 +226,12 @@ def build(case):
         m.mutations = [r for i in range(len(m.sites)) for r in rows[i]]
         par = mutation_parents(m)
         m.mutations = [(s_, u, d, par[i], t, md) for i, (s_, u, d, _, t, md) in enumerate(m.mutations)]
+    k = case["k"]
+    if k % 16 == 3:
+        # every coordinate times 2^24 / 2^31 / 2^40 (positions past 2^31, 2^32, 2^40) or 2^-3 (L < 1: header length 1)
+        X.scale_model(m, (24, 31, 40, -3)[(k // 16) % 4])
+    if k % 8 == 5:
+        X.add_schemas(rng, m)
     return rng, m, layout
 
 
@@ -216,14 +269,32 @@ TRANSFORMS = {
     "too-short": (lambda x: np.round(x)[:-1], None, True),
     # the form recommended by write_vcf's own position-zero error message
     "1+x": (lambda x: 1 + x, lambda xs: [1 + py_round(x) for x in xs], True),
+    # --- audit round
+    # the function behind "legacy", handed over as a callable
+    "legacy-function": (tskit.vcf.legacy_position_transform, legacy_ref, False),
+    # not monotone: the header length is max(1, f(L), f(last site)) - the LAST site, not the largest position
+    "decreasing": (lambda x: 1000000 - np.round(x), lambda xs: [1000000 - py_round(x) for x in xs], True),
+    "negative": (lambda x: -1 - np.round(x), lambda xs: [-1 - py_round(x) for x in xs], True),
+    # results past 2^31 / 2^32 / 2^40 as float64 (exact) and as Python ints
+    "big-float": (lambda x: np.round(x) * 2.0 ** 40 + 3.0, lambda xs: [py_round(x) * 2 ** 40 + 3 for x in xs], True),
+    "big-int-list": (lambda x: [int(v // 1) * 2 ** 31 + 1 for v in x], lambda xs: [int(x // 1) * 2 ** 31 + 1 for x in xs],
+                     True),
+    "int32-array": (lambda x: np.round(x).astype(np.int32), lambda xs: [py_round(x) for x in xs], True),
+    "tuple": (lambda x: tuple(int(v // 1) for v in x), lambda xs: [int(x // 1) for x in xs], True),
+    # "must return an integer numpy array the same dimension as x"
+    "2d": (lambda x: np.round(x).reshape(-1, 1), None, True),
 }
 TRANSFORM_WEIGHTS = (["default"] * 8 + ["legacy"] * 3 + ["np.round", "floor", "floor+1", "floor+1", "fmax1",
-                     "times2-list", "const5", "zero"] * 2 + ["too-long", "too-short"])
+                     "times2-list", "const5", "zero"] * 2 + ["too-long", "too-short", "2d"]
+                     + ["legacy-function", "decreasing", "decreasing", "negative", "big-float", "big-int-list",
+                        "int32-array", "tuple"])
+# transforms whose result would leave int64 / int32 on models scaled by 2^24 .. 2^40
+NOT_FOR_BIG_COORDS = {"big-float", "big-int-list", "int32-array"}
 
 # ------------------------------------------------------------------------------------ mask forms
 
 FORMS = ["bool-array", "list-bool", "tuple-bool", "int64-array", "uint8-array", "list-int", "float-array",
-         "int8-array"]
+         "int8-array"] + sorted(X.EXTRA_MASK_FORMS)
 
 
 def mask_form(logical, form):
@@ -243,6 +314,10 @@ def mask_form(logical, form):
         return [int(x) for x in logical]
     if form == "float-array":
         return np.array([float(x) for x in logical])
+    if form in X.EXTRA_MASK_FORMS:
+        # truth value of every entry kept; true entries are not 1 (2, -1, 256, 2^32, 0.5, nan ...), false ones may
+        # be -0.0; read-only / strided / object arrays, lists of numpy.bool_
+        return X.EXTRA_MASK_FORMS[form](logical)
     raise AssertionError(form)
 
 
@@ -263,14 +338,26 @@ class DynMask:
 # ------------------------------------------------------------------------------------ expectation
 
 
+def by_individual(R):
+    """individual id -> its nodes in increasing id order (cached on the reference object)."""
+    d = getattr(R, "_c16_by_ind", None)
+    if d is None:
+        d = {}
+        for u, row in enumerate(R.m.nodes):
+            if row[3] != NULL:
+                d.setdefault(row[3], []).append(u)
+        R._c16_by_ind = d
+    return d
+
+
 def vcf_groups(R, a):
     """Sample-to-individual mapping: (must, may, groups or None, effective isolated_as_missing)."""
     m = R.m
-    n = m.num_nodes
     must, may = set(), set()
     nind = len(m.individuals)
     samples = R.samples
     node_ind = [row[3] for row in m.nodes]
+    by_ind = by_individual(R)
     iam = True if a.get("iam") is None else bool(a["iam"])
     ploidy = a.get("ploidy")
     individuals = a.get("individuals")
@@ -291,13 +378,19 @@ def vcf_groups(R, a):
         if len(individuals) == 0:
             must.add("empty-individuals")
         inds = list(individuals)
+        if len(set(inds)) != len(inds):
+            may.add("duplicate-individuals")  # V7
     if inds is not None:
         groups = []
         for i in inds:
+            if not (-2 ** 31 <= i < 2 ** 31):
+                # an id that is no individual of this tree sequence whatever 32-bit value it wraps to
+                must.add("individual-id-beyond-int32")
+                continue
             if i < 0 or i >= nind:
                 must.add("individual-out-of-bounds")
                 continue
-            nodes = [u for u in range(n) if node_ind[u] == i]
+            nodes = by_ind.get(i, [])
             if not nodes:
                 must.add("individual-without-nodes")
                 continue
@@ -354,6 +447,7 @@ def vcf_expect(R, a):
     out_nodes = [u for g in groups for u in g]
     samp = a.get("sample_mask")  # None | ("static", row) | ("dynamic", rows)
     lines = []
+    stats = {}
     for j in range(ns):
         if logical_site[j]:
             continue
@@ -372,6 +466,22 @@ def vcf_expect(R, a):
         calls = []
         for k in range(len(out_nodes)):
             calls.append(None if (mi[k] or (row is not None and row[k])) else al[k])
+        # which trigger classes this line carries (reported as features when the line was really compared)
+        if any(mi):
+            stats["line:missing-call"] = stats.get("line:missing-call", 0) + 1
+            if row is not None and any(x and not y for x, y in zip(mi, row)):
+                stats["line:missing-call-outside-sample-mask"] = stats.get("line:missing-call-outside-sample-mask", 0) + 1
+            if all(c is None for c in calls):
+                stats["line:all-calls-missing"] = stats.get("line:all-calls-missing", 0) + 1
+        if row is not None:
+            tag = "line:sample-mask-" + ("all-false" if not any(row) else "all-true" if all(row) else "mixed")
+            stats[tag] = stats.get(tag, 0) + 1
+        if len(s["states"]) in (8, 9):
+            stats[f"line:{len(s['states'])}-alleles"] = stats.get(f"line:{len(s['states'])}-alleles", 0) + 1
+        if pos[j] == 0:
+            stats["line:pos-0-written"] = stats.get("line:pos-0-written", 0) + 1
+        if abs(pos[j]) >= 2 ** 31:
+            stats["line:pos-beyond-2^31"] = stats.get("line:pos-beyond-2^31", 0) + 1
         gts = []
         k = 0
         for g in groups:
@@ -390,7 +500,14 @@ def vcf_expect(R, a):
         "contig_lengths": contigs,
         "lines": lines,
         "out_nodes": out_nodes,
+        "stats": stats,
     }
+    if not lines:
+        stats["output:header-only"] = 1
+    if len(set(pos[j] for j in range(ns) if not logical_site[j])) < len(lines):
+        stats["output:equal-POS-on-several-lines"] = 1
+    if TL < 1:
+        stats["output:transformed-L-below-1"] = 1
     return must, may, exp
 
 
@@ -476,16 +593,21 @@ def vcf_compare(text, exp):
 # ------------------------------------------------------------------------------------ drawing arguments
 
 
-def draw_args(rng, R, layout):
-    """Logical arguments + how to pass them."""
+def draw_args(rng, R, layout, calm=False):
+    """Logical arguments + how to pass them.  calm: large inputs - almost always a valid call."""
     m = R.m
     nind = len(m.individuals)
     ns = len(R.sites)
     a = {}
+    by_ind = by_individual(R)
     # ploidy
     r = rng.random()
     nsamp = len(R.samples)
-    if nind == 0:
+    if calm:
+        if nind == 0 and r < 0.85:
+            div = [p for p in (1, 2, 2, 3, 4, 64, 128, 129, 130, 256, 260, nsamp // 2, nsamp) if p and nsamp % p == 0]
+            a["ploidy"] = rng.choice(div) if rng.random() < 0.95 else rng.choice([0, 7, nsamp + 1])
+    elif nind == 0:
         if r < 0.75:
             div = [p for p in (1, 2, 3, 4) if nsamp % p == 0]
             r2 = rng.random()
@@ -493,74 +615,146 @@ def draw_args(rng, R, layout):
     elif r < (0.15 if layout == "unused" else 0.05):
         a["ploidy"] = rng.choice([1, 2])
     # individuals
-    if nind and rng.random() < (0.7 if layout in ("partial", "mixed", "nonsample-only") else 0.4):
-        node_ind = [row[3] for row in m.nodes]
-        good = [i for i in range(nind) if any(node_ind[u] == i for u in range(m.num_nodes))
-                and all(m.is_sample(u) for u in range(m.num_nodes) if node_ind[u] == i)]
-        withnodes = [i for i in range(nind) if any(node_ind[u] == i for u in range(m.num_nodes))]
+    if calm:
+        good = [i for i in sorted(by_ind) if all(m.is_sample(u) for u in by_ind[i])]
+        if good and rng.random() < 0.5:
+            r = rng.random()
+            if r < 0.5:
+                a["individuals"] = rng.sample(good, len(good))
+            elif r < 0.95:
+                a["individuals"] = rng.sample(good, rng.randint(1, len(good)))
+            else:
+                a["individuals"] = rng.sample(good, min(3, len(good))) + [rng.choice([-1, nind])]
+    elif nind and rng.random() < (0.7 if layout in ("partial", "mixed", "nonsample-only") else 0.4):
+        withnodes = sorted(by_ind)
+        good = [i for i in withnodes if all(m.is_sample(u) for u in by_ind[i])]
         r = rng.random()
-        if r < 0.72 and good:
+        if r < 0.70 and good:
             a["individuals"] = rng.sample(good, rng.randint(1, len(good)))
+        elif r < 0.74 and good:
+            # V7: an individual listed twice
+            a["individuals"] = rng.sample(good, rng.randint(1, len(good)))
+            a["individuals"].insert(rng.randint(0, len(a["individuals"])), rng.choice(a["individuals"]))
         elif r < 0.86 and withnodes:
             a["individuals"] = rng.sample(withnodes, rng.randint(1, len(withnodes)))
-        elif r < 0.93:
+        elif r < 0.92:
             a["individuals"] = rng.sample(range(nind), rng.randint(1, nind))
-        elif r < 0.96:
+        elif r < 0.95:
             a["individuals"] = []
-        else:
+        elif r < 0.98:
             a["individuals"] = [rng.choice([-1, nind, nind + 2])] + rng.sample(range(nind), rng.randint(0, nind))
+        else:
+            # ids that are valid only after wrapping to 32 bits (2^32 + id, id - 2^32, 2^31 + ...)
+            lst = rng.sample(good or list(range(nind)), rng.randint(1, len(good or range(nind))))
+            j = rng.randrange(len(lst))
+            lst[j] = lst[j] + rng.choice([2 ** 32, -2 ** 32, 2 ** 33, 2 ** 40])
+            a["individuals"] = lst
     if rng.random() < 0.3:
         a["iam"] = rng.choice([True, False, False])
     if rng.random() < 0.5:
         a["apz"] = rng.choice([True, True, False])
     if rng.random() < 0.25:
         a["contig_id"] = rng.choice(["chr1", "X", "contig_7", "2"])
-    a["transform"] = rng.choice(TRANSFORM_WEIGHTS)
-    if rng.random() < 0.55 and ns:
+    if calm:
+        a["transform"] = rng.choice(["default", "default", "legacy", "legacy-function", "np.round", "floor+1", "decreasing",
+                                     "big-int-list", "tuple"])
+        if any(s["pos"] == 0 for s in R.sites) and rng.random() < 0.8:
+            a["apz"] = True
+    else:
+        a["transform"] = rng.choice(TRANSFORM_WEIGHTS)
+        if m.L >= 2 ** 20 and a["transform"] in NOT_FOR_BIG_COORDS:
+            a["transform"] = "default"
+    r = rng.random()
+    if r < 0.50 and ns:
         p = rng.choice([0.2, 0.5, 0.8])
         a["site_mask"] = [rng.random() < p for _ in range(ns)]
-        if rng.random() < 0.06:
+        if rng.random() < (0.01 if calm else 0.06):
             a["site_mask"] = a["site_mask"] + [False] if rng.random() < 0.5 else a["site_mask"][:-1]
-    elif rng.random() < 0.1:
+    elif r < 0.55 and ns:
+        a["site_mask"] = [True] * ns
+    elif r < 0.61:
         a["site_mask"] = [False] * ns
     return a
 
 
-def draw_names_and_sample_mask(rng, R, a):
+def draw_names_and_sample_mask(rng, R, a, calm=False):
     """Needs the number of output individuals / nodes, so it is drawn after a first expectation pass."""
     _, _, groups, _ = vcf_groups(R, a)
     ngroups = len(groups) if groups is not None else rng.randint(0, 3)
     nout = sum(len(g) for g in groups) if groups is not None else len(R.samples)
+    ns = len(R.sites)
     if rng.random() < 0.3:
-        k = ngroups if rng.random() < 0.85 else max(0, ngroups + rng.choice([-1, 1]))
+        k = ngroups if rng.random() < (0.98 if calm else 0.85) else max(0, ngroups + rng.choice([-1, 1]))
         a["names"] = [rng.choice(["a", "ind", "s_", "NA"]) + str(i * 7 % 11) for i in range(k)]
     if rng.random() < 0.45:
-        k = nout if rng.random() < 0.9 else max(0, nout + rng.choice([-1, 1]))
-        p = rng.choice([0.2, 0.5, 0.9])
+        k = nout if rng.random() < (0.98 if calm else 0.9) else max(0, nout + rng.choice([-1, 1]))
+        p = rng.choice([0.0, 0.2, 0.5, 0.9, 1.0])
         if rng.random() < 0.5:
             a["sample_mask"] = ("static", [rng.random() < p for _ in range(k)])
         else:
-            a["sample_mask"] = ("dynamic", [[rng.random() < p for _ in range(k)] for _ in range(len(R.sites))])
+            rows = [[rng.random() < p for _ in range(k)] for _ in range(ns)]
+            sm = a.get("site_mask")
+            if sm is not None and len(sm) == ns and rng.random() < 0.5:
+                # "called for each (unmasked) site": what the callable would return for a masked site is irrelevant,
+                # here an array of the wrong length
+                for j in range(ns):
+                    if sm[j]:
+                        rows[j] = rows[j] + [True] if rng.random() < 0.5 else rows[j][:-1]
+                a["_dyn_bad_rows_at_masked_sites"] = True
+            elif ns and k == nout and rng.random() < 0.06:
+                # the callable answers with a wrong length at ONE site only (an error unless that site is masked)
+                j = rng.randrange(ns)
+                rows[j] = rows[j] + [False] if rng.random() < 0.5 else rows[j][:-1]
+            a["sample_mask"] = ("dynamic", rows)
     return a
 
 
-def to_kwargs(rng, a, site_form=None, sample_form=None, positional_ploidy=False):
-    """Concrete keyword arguments for write_vcf; returns (args, kwargs, dynmask or None)."""
+EXPLICIT_DEFAULTS = [("ploidy", None), ("individuals", None), ("individual_names", None), ("position_transform", None),
+                     ("site_mask", None), ("sample_mask", None), ("isolated_as_missing", None),
+                     ("allow_position_zero", None), ("allow_position_zero", False), ("contig_id", "1")]
+
+
+def to_kwargs(rng, a, site_form=None, sample_form=None, positional_ploidy=False, plain=True, feats=None):
+    """Concrete keyword arguments for write_vcf; returns (args, kwargs, dynmask or None).
+
+    plain: canonical containers (list / int64 array ids, Python scalars, defaults left out).  Otherwise every
+    argument goes through a randomly chosen equivalent form, and defaults may be spelled out."""
     kw = {}
     args = []
+    feats = [] if feats is None else feats
+    wraps = any(not (-2 ** 31 <= i < 2 ** 31) for i in a.get("individuals") or [])
     if "ploidy" in a:
+        p = a["ploidy"]
+        if not plain:
+            f = rng.choice(X.PLOIDY_FORMS)
+            p = X.ploidy_form(p, f)
+            feats.append("ploidy-form:" + type(p).__name__)
         if positional_ploidy:
-            args.append(a["ploidy"])
+            args.append(p)
         else:
-            kw["ploidy"] = a["ploidy"]
+            kw["ploidy"] = p
     if "individuals" in a:
-        kw["individuals"] = list(a["individuals"]) if rng.random() < 0.6 else np.array(a["individuals"], dtype=np.int64)
+        if wraps:
+            # the containers that can hold the value at all
+            f = "int64" if plain else rng.choice(["int64", "int64", "readonly", "list", "list-np"])
+            f, kw["individuals"] = X.individuals_form(a["individuals"], f)
+            feats.append("individuals-form:" + f + "(beyond-int32)")
+        elif plain:
+            kw["individuals"] = list(a["individuals"]) if rng.random() < 0.6 else np.array(a["individuals"], dtype=np.int64)
+        else:
+            f, kw["individuals"] = X.individuals_form(a["individuals"], rng.choice(X.IND_FORMS))
+            feats.append("individuals-form:" + f)
     if a.get("names") is not None:
-        kw["individual_names"] = list(a["names"])
+        if plain:
+            kw["individual_names"] = list(a["names"])
+        else:
+            f = rng.choice(X.NAME_FORMS)
+            kw["individual_names"] = X.names_form(a["names"], f)
+            feats.append("names-form:" + f)
     if "iam" in a:
-        kw["isolated_as_missing"] = a["iam"]
+        kw["isolated_as_missing"] = a["iam"] if plain else X.flag_form(rng, a["iam"])
     if "apz" in a:
-        kw["allow_position_zero"] = a["apz"]
+        kw["allow_position_zero"] = a["apz"] if plain else X.flag_form(rng, a["apz"])
     if "contig_id" in a:
         kw["contig_id"] = a["contig_id"]
     t = TRANSFORMS[a.get("transform", "default")][0]
@@ -576,14 +770,22 @@ def to_kwargs(rng, a, site_form=None, sample_form=None, positional_ploidy=False)
         else:
             dyn = DynMask(rows, sample_form or "bool-array")
             kw["sample_mask"] = dyn
+    if not plain:
+        for name, value in EXPLICIT_DEFAULTS:
+            if name not in kw and not (name == "ploidy" and args) and rng.random() < 0.08:
+                kw[name] = value
+                feats.append(f"explicit-default:{name}={value!r}")
     return args, kw, dyn
 
 
-def describe(a, site_form, sample_form):
-    d = dict(a)
+def describe(a, site_form, sample_form, extra=""):
+    d = {k: v for k, v in a.items() if not k.startswith("_")}
     if "sample_mask" in d and d["sample_mask"] is not None:
         d["sample_mask"] = (d["sample_mask"][0], d["sample_mask"][1])
-    return f"write_vcf(logical args {d}, site_mask form {site_form}, sample_mask form {sample_form})"
+    text = repr(d)
+    if len(text) > 1200:
+        text = text[:1200] + "...(cut)"
+    return f"write_vcf(logical args {text}, site_mask form {site_form}, sample_mask form {sample_form}{extra})"
 
 
 # ------------------------------------------------------------------------------------ monitors
@@ -594,6 +796,7 @@ class Mon:
         self.ctx = ctx
         self.m = m
         self.R = R
+        self.fast = False  # large inputs: the one-pass reference evaluation (c03_gen.fast_site_states)
         self._detail = None
 
     def bad(self, key, msg, model=None):
@@ -606,12 +809,14 @@ class Mon:
         self.ctx.violation(key, msg, detail)
 
 
-def run_vcf(ts, args, kw):
-    return attempt(lambda: ts.as_vcf(*args, **kw))
+def run_vcf(ts, args, kw, entry="as_vcf"):
+    return attempt(lambda: X.call_entry(ts, entry, args, kw))
 
 
 def judge(ok, out, must, may, exp, dyn=None):
     """None if the outcome agrees with the expectation, else (key, msg)."""
+    if not ok and isinstance(out, X.SecondWriteDiffers):
+        return ("vcf/writer-not-reusable", str(out))
     if must:
         if ok:
             return (f"vcf/error-not-raised/{sorted(must)[0]}", f"returned normally, predicted errors {sorted(must)}; "
@@ -625,26 +830,38 @@ def judge(ok, out, must, may, exp, dyn=None):
         return None
     diffs = vcf_compare(out, exp)
     if diffs:
-        return (diffs[0][0], "; ".join(msg for _, msg in diffs[:3]) + f" || full output {out!r}")
+        shown = out if len(out) < 1500 else out[:700] + " ...(cut)... " + out[-700:]
+        return (diffs[0][0], "; ".join(msg[:600] for _, msg in diffs[:3]) + f" || full output {shown!r}")
     if dyn is not None:
         want = [(ln["site"], exp["out_nodes"]) for ln in exp["lines"]]
         if dyn.calls != want:
             return ("vcf/sample-mask-callable-calls", f"sample_mask callable was called with (site, variant.samples) "
-                    f"{dyn.calls} expected {want}")
+                    f"{str(dyn.calls)[:600]} expected {str(want)[:600]}")
     return None
 
 
-def mon_general(rng, mon, ts, layout):
+def mon_general(rng, mon, ts, layout, calm=False):
     R, ctx = mon.R, mon.ctx
-    a = draw_args(rng, R, layout)
-    a = draw_names_and_sample_mask(rng, R, a)
+    a = draw_args(rng, R, layout, calm)
+    a = draw_names_and_sample_mask(rng, R, a, calm)
     must, may, exp = vcf_expect(R, a)
     site_form = rng.choice(FORMS) if a.get("site_mask") is not None else None
     sample_form = rng.choice(FORMS) if a.get("sample_mask") is not None else None
-    args, kw, dyn = to_kwargs(rng, a, site_form, sample_form, positional_ploidy=rng.random() < 0.3)
-    ok, out = run_vcf(ts, args, kw)
+    feats = []
+    pos_ploidy = rng.random() < 0.3
+    args, kw, dyn = to_kwargs(rng, a, site_form, sample_form, positional_ploidy=pos_ploidy, plain=False, feats=feats)
+    entry = rng.choice(X.ENTRIES)
+    ok, out = run_vcf(ts, args, kw, entry)
+    if entry == "VcfWriter:twice" and dyn is not None and ok:
+        # two write() calls: the callable is consulted once per written line each time
+        half = len(dyn.calls) // 2
+        if len(dyn.calls) % 2 == 0 and dyn.calls[:half] == dyn.calls[half:]:
+            dyn.calls = dyn.calls[:half]
     ctx.count("vcf:calls")
     ctx.feature("transform:" + a.get("transform", "default"))
+    ctx.feature("entry:" + entry)
+    for t in feats:
+        ctx.feature(t)
     if must:
         ctx.count("vcf:error-predicted")
         for t in must:
@@ -654,8 +871,21 @@ def mon_general(rng, mon, ts, layout):
         ctx.count("vcf:lines-compared", len(exp["lines"]) if exp else 0)
         if exp and exp["lines"]:
             ctx.count("vcf:nonempty-compared")
+        if exp:
+            for t, c in exp["stats"].items():
+                ctx.feature(t, c)
+            if entry != "as_vcf":
+                ctx.count("vcf:compared-through-other-entry")
+            if feats:
+                ctx.count("vcf:compared-with-argument-forms")
+            if a.get("_dyn_bad_rows_at_masked_sites"):
+                ctx.feature("callable-mask-unusable-at-masked-sites")
+            if "duplicate-individuals" in may:
+                ctx.feature("either:duplicate-individuals-written")
     elif may:
         ctx.count("vcf:either-zone-error")
+        for t in may:
+            ctx.feature("either-error:" + t)
     if site_form:
         ctx.feature("site_mask:" + site_form)
     if sample_form:
@@ -663,57 +893,71 @@ def mon_general(rng, mon, ts, layout):
     v = judge(ok, out, must, may, exp, dyn)
     if v is not None:
         key, msg = v
-        # a disagreement that disappears when the same logical masks are passed as boolean arrays is a
-        # mask-form defect, not a genotype defect: name it by that mechanism
-        for which, form in (("site", site_form), ("sample", sample_form)):
-            if form in (None, "bool-array"):
-                continue
-            sf = "bool-array" if which == "site" else site_form
-            pf = "bool-array" if which == "sample" else sample_form
-            args2, kw2, dyn2 = to_kwargs(rng, a, sf, pf)
+        extra = f", entry {entry}, argument forms {feats}, ploidy {'positional' if pos_ploidy else 'keyword'}"
+        named = False
+        # (1) a disagreement that disappears when the very same arguments go through as_vcf belongs to the entry
+        if entry != "as_vcf":
+            args2, kw2, dyn2 = args, dict(kw), None
+            if dyn is not None:
+                dyn2 = DynMask(dyn.rows, dyn.form)
+                kw2["sample_mask"] = dyn2
+            ok2, out2 = run_vcf(ts, args2, kw2, "as_vcf")
+            if judge(ok2, out2, must, may, exp, dyn2) is None:
+                key, named = f"vcf/entry/{entry.split(':')[0]}", True
+                msg = f"through {entry}: {msg}; the same arguments through as_vcf behave as documented"
+        # (2) ... when the arguments are passed in their canonical containers: an argument-form defect
+        if not named and feats:
+            args2, kw2, dyn2 = to_kwargs(rng, a, site_form, sample_form)
             ok2, out2 = run_vcf(ts, args2, kw2)
             if judge(ok2, out2, must, may, exp, dyn2) is None:
-                key = f"vcf/{which}-mask-form"
-                msg = f"{which}_mask given as {form}: {msg}; the same mask as a boolean array behaves as documented"
-                break
-        mon.bad(key, f"{describe(a, site_form, sample_form)}: {msg}")
+                key, named = "vcf/argument-form", True
+                msg = f"{msg}; the same call with plain list / int / bool arguments behaves as documented"
+        # (3) ... when the same logical masks are passed as boolean arrays: a mask-form defect
+        if not named:
+            for which, form in (("site", site_form), ("sample", sample_form)):
+                if form in (None, "bool-array"):
+                    continue
+                sf = "bool-array" if which == "site" else site_form
+                pf = "bool-array" if which == "sample" else sample_form
+                args2, kw2, dyn2 = to_kwargs(rng, a, sf, pf)
+                ok2, out2 = run_vcf(ts, args2, kw2)
+                if judge(ok2, out2, must, may, exp, dyn2) is None:
+                    key = f"vcf/{which}-mask-form"
+                    msg = f"{which}_mask given as {form}: {msg}; the same mask as a boolean array behaves as documented"
+                    break
+        mon.bad(key, f"{describe(a, site_form, sample_form, extra)}: {msg}")
         return
-    if ok and rng.random() < 0.25:
-        # as_vcf == write_vcf (StringIO and a real file)
+    if ok and entry != "as_vcf" and rng.random() < (0.25 if calm else 0.6):
+        # every entry writes the text as_vcf returns
         args2, kw2, _ = to_kwargs(rng, a, site_form, sample_form)
-        buf = io.StringIO()
-        ok2, r2 = attempt(lambda: ts.write_vcf(buf, *args2, **kw2))
+        ok2, out2 = run_vcf(ts, args2, kw2)
         ctx.count("vcf:write_vcf-vs-as_vcf")
-        if not ok2 or buf.getvalue() != out:
-            mon.bad("vcf/write_vcf-differs-from-as_vcf", f"{describe(a, site_form, sample_form)}: write_vcf -> "
-                    f"{r2 if not ok2 else buf.getvalue()!r}, as_vcf -> {out!r}")
-        if rng.random() < 0.3:
-            with tempfile.TemporaryDirectory(prefix="c16-") as d:
-                p = os.path.join(d, "x.vcf")
-                args3, kw3, _ = to_kwargs(rng, a, site_form, sample_form)
-                with open(p, "w") as f:
-                    ok3, r3 = attempt(lambda: ts.write_vcf(f, *args3, **kw3))
-                got = open(p).read()
-                ctx.count("vcf:write_vcf-file")
-                if not ok3 or got != out:
-                    mon.bad("vcf/write_vcf-differs-from-as_vcf", f"{describe(a, site_form, sample_form)}: file "
-                            f"output {r3 if not ok3 else got!r}, as_vcf -> {out!r}")
+        if not ok2 or out2 != out:
+            mon.bad("vcf/write_vcf-differs-from-as_vcf", f"{describe(a, site_form, sample_form)}: {entry} -> "
+                    f"{out[-800:]!r}, as_vcf -> {out2 if not ok2 else out2[-800:]!r}")
+        if entry == "write_vcf:file":
+            ctx.count("vcf:write_vcf-file")
 
 
 def outcome(ok, out):
     return ("ok", out) if ok else ("error", exc_name(out))
 
 
-def mon_mask_forms(rng, mon, ts, layout):
-    """Mask-form metamorphism crossed with allow_position_zero and a (un)masked site at position 0."""
+def mon_mask_forms(rng, mon, ts, layout, calm=False, nforms=4):
+    """Mask-form metamorphism crossed with allow_position_zero and a (un)masked site at position 0.
+
+    Each block tries `nforms` of the 16 non-canonical forms (a form defect shows on every call that uses the form,
+    so rotating the forms over the cases loses nothing and pays for the wider form list)."""
     R, ctx = mon.R, mon.ctx
     ns = len(R.sites)
     if ns == 0:
         return
-    a = draw_args(rng, R, layout)
+    a = draw_args(rng, R, layout, calm)
+    if "individuals" in a and any(not (-2 ** 31 <= i < 2 ** 31) for i in a["individuals"]):
+        a.pop("individuals")  # the 32-bit wrap class is judged in mon_general
     # keep the rest of the call valid most of the time so that the masks decide the outcome
     a.pop("names", None)
-    if a.get("transform") in ("too-long", "too-short"):
+    if a.get("transform") in ("too-long", "too-short", "2d"):
         a["transform"] = "default"
     if rng.random() < 0.5:
         a["transform"] = rng.choice(["default", "default", "floor", "zero"])
@@ -721,7 +965,7 @@ def mon_mask_forms(rng, mon, ts, layout):
     logical = [rng.random() < p for _ in range(ns)]
     logical[0] = rng.random() < 0.5
     a["site_mask"] = logical
-    a = draw_names_and_sample_mask(rng, R, a)
+    a = draw_names_and_sample_mask(rng, R, a, calm)
     a.pop("names", None)
     for apz in (None, True):
         b = dict(a)
@@ -739,20 +983,22 @@ def mon_mask_forms(rng, mon, ts, layout):
         if v is not None:
             mon.bad(v[0], f"{describe(b, 'bool-array', 'bool-array')}: {v[1]}")
             continue
-        for form in FORMS[1:]:
+        for form in rng.sample(FORMS[1:], nforms):
             args1, kw1, _ = to_kwargs(rng, b, form, "bool-array")
             ok1, out1 = run_vcf(ts, args1, kw1)
             ctx.count("maskform:site-form")
+            ctx.feature("maskform-site:" + form)
             if outcome(ok1, out1) != outcome(ok0, out0):
                 mon.bad("vcf/site-mask-form", f"{describe(b, form, 'bool-array')}: site_mask {kw1['site_mask']!r} -> "
                         f"{outcome(ok1, out1)[0]} {out1 if not ok1 else out1[-200:]!r}; the same mask as a boolean "
                         f"array -> {outcome(ok0, out0)[0]} {out0 if not ok0 else out0[-200:]!r}")
                 break
         if b.get("sample_mask") is not None:
-            for form in FORMS[1:]:
+            for form in rng.sample(FORMS[1:], max(1, nforms - 1)):
                 args1, kw1, _ = to_kwargs(rng, b, "bool-array", form)
                 ok1, out1 = run_vcf(ts, args1, kw1)
                 ctx.count("maskform:sample-form")
+                ctx.feature("maskform-sample:" + ("callable->" if b["sample_mask"][0] == "dynamic" else "") + form)
                 if outcome(ok1, out1) != outcome(ok0, out0):
                     mon.bad("vcf/sample-mask-form", f"{describe(b, 'bool-array', form)}: sample_mask form {form} -> "
                             f"{outcome(ok1, out1)[0]} {out1 if not ok1 else out1[-200:]!r}; boolean array -> "
@@ -766,7 +1012,7 @@ def mon_masked_independence(rng, mon, ts, layout):
     if ns == 0:
         return
     a = draw_args(rng, R, layout)
-    if a.get("transform") in ("too-long", "too-short"):
+    if a.get("transform") in ("too-long", "too-short", "2d"):
         a["transform"] = "default"
     p = rng.choice([0.3, 0.6])
     logical = [rng.random() < p for _ in range(ns)]
@@ -776,11 +1022,11 @@ def mon_masked_independence(rng, mon, ts, layout):
     a["site_mask"] = logical
     a = draw_names_and_sample_mask(rng, R, a)
     masked = [j for j in range(ns) if logical[j]]
-    m2, kinds = nastify(rng, mon.m, masked, ["many-alleles", "multi-letter", "position-zero"])
-    ok_b, ts2 = attempt(lambda: to_ts(m2))
+    m2, kinds = nastify(rng, mon.m, masked, ["many-alleles", "multi-letter", "position-zero", "unprintable"])
+    ok_b, ts2 = attempt(lambda: X.build_ts(m2))
     if not ok_b:
         raise RuntimeError(f"nastified model invalid: {ts2}")
-    R2 = GenoRef(m2)
+    R2 = GenoRef(m2, fast=mon.fast)
     must1, may1, exp1 = vcf_expect(R, a)
     must2, may2, exp2 = vcf_expect(R2, a)
     form = rng.choice(FORMS)
@@ -845,7 +1091,7 @@ def mon_transform_receives_list(rng, mon, ts):
 
 
 def mon_cli(rng, mon, ts):
-    """`python -m tskit vcf` (in process) against the reference."""
+    """`python -m tskit vcf` (in process) against the reference; every spelling argparse accepts."""
     from tskit import cli
 
     R, ctx = mon.R, mon.ctx
@@ -853,56 +1099,115 @@ def mon_cli(rng, mon, ts):
     argv = []
     if rng.random() < 0.5:
         a["ploidy"] = rng.choice([1, 2, 3])
-        argv += [rng.choice(["-P", "--ploidy"]), str(a["ploidy"])]
+        argv += rng.choice([["-P", str(a["ploidy"])], ["--ploidy", str(a["ploidy"])], [f"--ploidy={a['ploidy']}"],
+                            [f"-P{a['ploidy']}"]])
     if rng.random() < 0.5:
         a["contig_id"] = rng.choice(["chrX", "7"])
-        argv += [rng.choice(["-c", "--contig-id"]), a["contig_id"]]
+        argv += rng.choice([["-c", a["contig_id"]], ["--contig-id", a["contig_id"]], [f"--contig-id={a['contig_id']}"]])
     if rng.random() < 0.6:
         a["apz"] = True
         argv += [rng.choice(["-0", "--allow-position-zero"])]
     must, may, exp = vcf_expect(R, a)
-    with tempfile.TemporaryDirectory(prefix="c16-") as d:
-        p = os.path.join(d, "x.trees")
-        ts.dump(p)
+    p = X.scratch_file("cli.trees")
+    ts.dump(p)
+    try:
         buf = io.StringIO()
+        full = ["vcf", p] + argv if rng.random() < 0.5 else ["vcf"] + argv + [p]
+        how = rng.choice(["tskit_main", "parser+runner"])
 
         def go():
             with contextlib.redirect_stdout(buf), contextlib.redirect_stderr(io.StringIO()):
                 try:
-                    cli.tskit_main(["vcf", p] + argv)
+                    if how == "tskit_main":
+                        cli.tskit_main(full)
+                    else:
+                        parsed = cli.get_tskit_parser().parse_args(full)
+                        parsed.runner(parsed)
                 except SystemExit as e:
                     raise RuntimeError(f"SystemExit({e.code})")
             return buf.getvalue()
 
         ok, out = attempt(go)
+    finally:
+        os.unlink(p)
     ctx.count("vcf:cli")
+    ctx.feature("cli:" + how)
     v = judge(ok, out, must, may, exp)
     if v is not None:
-        mon.bad("cli/" + v[0], f"tskit vcf {argv}: {v[1]}")
+        mon.bad("cli/" + v[0], f"tskit {full[:1] + ['<file>' if x == p else x for x in full[1:]]}: {v[1]}")
+
+
+def big_features(m, R):
+    tags = set(m.tags)
+    if R.isolated_any:
+        tags.add("isolated-sample")
+    if any(any(s["missing"][u] for u in R.samples) for s in R.sites):
+        tags.add("site-with-missing-data")
+    return tags
 
 
 def run_case(case, ctx):
     rng, m, layout = build(case)
-    R = GenoRef(m)
+    kind = case["gen"]
+    large = kind in ("big", "huge", "manysites")
+    R = GenoRef(m, fast=large)
     mon = Mon(ctx, m, R)
-    for t in gen.topo_tags(m) | model_features(m, R):
+    mon.fast = large
+    if kind in ("big", "huge"):
+        mon._detail = {"model": "large input: replay the case to rebuild it", "tags": sorted(m.tags)}
+        tags = big_features(m, R)
+    else:
+        tags = gen.topo_tags(m) | model_features(m, R) | set(t for t in m.tags if t.startswith(
+            ("scaled:", "schema:", "manysites", "individual-rows")))
+    for t in tags:
         ctx.feature(t)
     ctx.feature("individuals-layout:" + layout)
-    ctx.feature("gen:" + case["gen"])
+    ctx.feature("gen:" + kind)
     for s in R.sites:
         if len(s["states"]) >= 8:
             ctx.feature(f"site-with-{len(s['states'])}-alleles")
     if any(s["pos"] == 0 for s in R.sites):
         ctx.feature("site-at-position-0")
-    ctx.sig(m.signature(), nontrivial=len(m.sites) > 0 and len(R.samples) > 0)
+    if len(R.samples) == 1:
+        ctx.feature("exactly-one-sample")
+    if kind in ("big", "huge"):
+        sig = (kind, m.L, len(m.nodes), tuple(m.edges[:50]), tuple(m.sites), tuple(m.mutations), len(m.individuals))
+    else:
+        sig = m.signature()
+    ctx.sig(sig, nontrivial=len(m.sites) > 0 and len(R.samples) > 0)
     if case["k"] < 2:
         ctx.sample({"case": case, "model": m.to_json()})
-    ts = to_ts(m)
+    ts = X.build_ts(m, fast=kind in ("big", "huge"))
+    if case["k"] % 16 == 9:
+        # a tree sequence that went through a file and back
+        path = X.scratch_file("origin.trees")
+        ts.dump(path)
+        ts = tskit.load(path)
+        os.unlink(path)
+        ctx.feature("ts-origin:loaded-from-file")
+    if kind == "huge":
+        ctx.count("huge:cases")
+        for _ in range(2):
+            mon_general(rng, mon, ts, layout, calm=True)
+        return
+    if kind == "big":
+        ctx.count("big:cases")
+        for _ in range(3):
+            mon_general(rng, mon, ts, layout, calm=True)
+        mon_mask_forms(rng, mon, ts, layout, calm=True, nforms=3)
+        return
+    if kind == "manysites":
+        ctx.count("manysites:cases")
+        for _ in range(2):
+            mon_general(rng, mon, ts, layout, calm=rng.random() < 0.7)
+        mon_mask_forms(rng, mon, ts, layout, calm=True, nforms=2)
+        mon_masked_independence(rng, mon, ts, layout)
+        return
     for _ in range(5):
         mon_general(rng, mon, ts, layout)
     mon_mask_forms(rng, mon, ts, layout)
     mon_masked_independence(rng, mon, ts, layout)
     if rng.random() < 0.4:
         mon_transform_receives_list(rng, mon, ts)
-    if rng.random() < 0.06:
+    if rng.random() < 0.08:
         mon_cli(rng, mon, ts)
